@@ -61,8 +61,11 @@ def compare(history, reader=False, timer=False, dumps="all"):
     return first_difference(oi, om), oi, om
 
 
-def shrink(history, still_fails, budget=400):
-    """delta-debugging over the op list (cfg stays first; a `crash` prefix moves with its op)"""
+def shrink(history, still_fails, budget=400, max_seconds=90.0):
+    """delta-debugging over the op list (cfg stays first; a `crash` prefix moves with its op); bounded both in the
+    number of re-executions and in wall time (a history of thousands of operations is reported as it is)"""
+    import time as _time
+    deadline = _time.time() + max_seconds
     def units(h):
         u, i = [], 1
         while i < len(h):
@@ -75,7 +78,7 @@ def shrink(history, still_fails, budget=400):
     head = history[:1]
     n = 2
     calls = 0
-    while len(cur) >= 2 and calls < budget:
+    while len(cur) >= 2 and calls < budget and _time.time() < deadline:
         chunk = max(1, len(cur) // n)
         reduced = False
         for start in range(0, len(cur), chunk):
@@ -91,7 +94,7 @@ def shrink(history, still_fails, budget=400):
                 n = max(n - 1, 2)
                 reduced = True
                 break
-            if calls >= budget:
+            if calls >= budget or _time.time() >= deadline:
                 break
         if not reduced:
             if chunk == 1:
